@@ -66,6 +66,9 @@ class Fn:
         k = r["kind"]
         if k == "lin":  # a * x[i] + b
             return r.get("a", 1.0) * x[r.get("i", 0)] + r.get("b", 0.0)
+        if k == "bounded":  # a * x/(1+x^2) + b: stays within [b - a/2, b + a/2] whatever the (continuous) outcome
+            v = x[r.get("i", 0)]
+            return r.get("a", 1.0) * v / (1.0 + v * v) + r.get("b", 0.0)
         if k == "gt":
             return x[r.get("i", 0)] > r.get("c", 0)
         if k == "eq":
